@@ -9,6 +9,7 @@ import (
 	"sync"
 	"sync/atomic"
 	"testing"
+	"time"
 
 	"github.com/cosi-project/runtime/pkg/resource"
 	"github.com/cosi-project/runtime/pkg/state"
@@ -150,7 +151,12 @@ func (e *concEng) Trace(_ *testing.T, sc Case) (Case, []string) {
 		st = inmem.NewStateWithOptions(inmem.WithBackingStore(bs))("n1")
 	} else {
 		builder := inmem.NewStateWithOptions(inmem.WithBackingStore(bs))
-		st = namespaced.NewState(func(ns resource.Namespace) state.CoreState { return builder(ns) })
+		// a slow builder: the first touches of a namespace by several workers overlap
+		st = namespaced.NewState(func(ns resource.Namespace) state.CoreState {
+			time.Sleep(300 * time.Microsecond)
+
+			return builder(ns)
+		})
 	}
 
 	ctx := context.Background()
